@@ -20,6 +20,8 @@ Definition sload_shape : list mop := [MPop 0 false; MSLoad 1 0 true; MPush 1].
 Definition sstore_shape : list mop := [MPop 0 false; MPop 1 false; MSStore 0 1].
 (* RETURN / REVERT and SELFDESTRUCT: pop, (load the returned slice,) record the halting value, end the path *)
 Definition halt2_shape (t : tag) : list mop := [MPop 0 false; MPop 1 false; MLoadSlice 2 0 1; MBuild 3 t [2]; MRecord 3; MKill].
+(* an environment read: a childless node is built and pushed *)
+Definition env_shape (t : tag) : list mop := [MBuild 0 t []; MPush 0].
 Definition selfdestruct_shape : list mop := [MPop 0 false; MBuild 1 T_SelfDestruct [0]; MRecord 1; MKill].
 
 Section Shapes.
@@ -79,6 +81,16 @@ Proof.
   destruct m; try discriminate Hm; destruct x; try discriminate Hm; cbn [const_val] in Hm; injection Hm as <-;
     unf; rewrite build_fit by exact Hf; unf; rewrite (push_ok _ _ Hd);
     (eexists; split; [reflexivity|]; destruct st; cbn; split; reflexivity).
+Qed.
+
+Lemma run_env t c :
+  fits cfg (Node t [] []) = true -> (length (stack (o_st c)) < 1024)%nat ->
+  exists c', run_mops fold cfg ie (env_shape t) c = (c', None)
+             /\ o_st c' = with_stack (o_st c) (Node t [] [] :: stack (o_st c)) /\ o_kill c' = o_kill c.
+Proof.
+  intros Hf Hd. destruct c as [env st id kill polls]. cbn [o_st o_kill] in *.
+  unfold env_shape. unf. rewrite build_fit by exact Hf. unf. rewrite (push_ok _ _ Hd).
+  eexists. split; [reflexivity|]. destruct st; cbn. split; reflexivity.
 Qed.
 
 Lemma run_pop c a s :
@@ -257,6 +269,12 @@ Definition kind_ok (o : opname) : Prop :=
       op_sem o = Some selfdestruct_shape /\ op_byte o = 255
       /\ (forall bytes br e, byte_at bytes (e_pc e) = Some 255 ->
            estep bytes br e = match e_stack e with _ :: r => EHalt (with_pc_stack e (e_pc e) r) | _ => EFault e end)
+  | KEnv t b =>
+      op_sem o = Some (env_shape t) /\ op_byte o = b /\ b <> 87 /\ den (Node t [] []) = None
+      /\ t <> T_KnownData /\ t <> T_UnwrittenStorageValue
+      /\ (forall bytes br e, byte_at bytes (e_pc e) = Some b ->
+           estep bytes br e = if 1024 <? N.of_nat (length (None :: e_stack e)) then EFault e
+                              else ENext (with_pc_stack e (e_pc e + 1) (None :: e_stack e)))
   | KOther => True
   end.
 
